@@ -867,12 +867,16 @@ func (h *handler1) handleMqttSn(ctx context.Context, pkt snPkts.Packet) error {
 				cancelPinger := h.startSleepPinger(ctx)
 				time.AfterFunc(time.Duration(snPkt.Duration)*time.Second, cancelPinger)
 			}
-			h.pktBuffer = nil
+			// A sleeping client repeats its DISCONNECT if it has not got our
+			// reply: the packets queued for it in the meantime must be kept.
+			if h.state.Get() != util.StateAsleep {
+				h.pktBuffer = nil
+			}
+			// The reply is sent right away, it is never queued.
 			m2 := snPkts1.NewDisconnect(0)
-			if err := h.snSend(m2); err != nil {
+			if err := h.snSendNow(m2); err != nil {
 				return err
 			}
-			// Must be set after snSend otherwise the packet will be queued...
 			h.setState(util.StateAsleep)
 			return nil
 		}
@@ -961,6 +965,11 @@ func (h *handler1) snSend(pkt snPkts.Packet) error {
 		// TODO: Potentional serialization errors will be delayed!
 		return nil
 	}
+	return h.snSendNow(pkt)
+}
+
+// Send the packet to the client immediately, whatever the client's state is.
+func (h *handler1) snSendNow(pkt snPkts.Packet) error {
 	h.log.Debug("<- %v", pkt)
 	buf, err := pkt.Pack()
 	if err != nil {
